@@ -524,7 +524,8 @@ func resolveTracksSizes(context *layoutContext, sizingFunctions [][2]pr.DimOrS, 
 			for _, child := range children {
 				pos := childrenPositions[child]
 				x, _, width, _ := pos.unpack()
-				widthF := sum0(orthogonalSizes[x : x+width])
+				// a span may extend after the last track
+				widthF := sum0(orthogonalSizes[utils.MinInt(x, len(orthogonalSizes)):utils.MinInt(x+width, len(orthogonalSizes))])
 				child = bo.Deepcopy(child)
 				child.Box().PositionX = 0
 				child.Box().PositionY = 0
@@ -1508,7 +1509,7 @@ func gridLayout(context *layoutContext, box_ Box, bottomSpace pr.Float, skipStac
 		childB.PositionY = rowsPositions[y] - skipHeight
 		cbW, cbH := box.ContainingBlock()
 		resolvePercentages(child, bo.MaybePoint{cbW, cbH}, 0)
-		widthF := (sum0(columnsSizes[x:x+width]) + pr.Float(width-1)*columnGap)
+		widthF := (sum0(columnsSizes[utils.MinInt(x, len(columnsSizes)):utils.MinInt(x+width, len(columnsSizes))]) + pr.Float(width-1)*columnGap)
 		heightF := (sum0(rowsSizes[y:utils.MinInt(y+height, len(rowsSizes))]) + pr.Float(height-1)*rowGap)
 		childWidth := widthF - (childB.MarginLeft.V() + childB.BorderLeftWidth + childB.PaddingLeft.V() +
 			childB.MarginRight.V() + childB.BorderRightWidth + childB.PaddingRight.V())
